@@ -92,8 +92,22 @@ def BinaryOp.storeFree : BinaryOp → Bool
   | .mem | .getTag | .hasTag => false
   | _ => true
 
-/-- the fragment of expressions covered by `pinterp_sound_partial` (no unknowns in the policy text, no
-    set/record/extension-call constructors, no store-dependent binary operators) -/
+/-- side condition on an extension function allowed in the fragment: the values it returns survive
+    `Value.toExpr` (trivially so for the functions returning Booleans / longs; for the constructors `decimal`, `ip`,
+    `datetime`, `duration`, `offset`, … this is the print/parse round trip of the canonical rendering — Rust keeps the
+    original constructor call instead) -/
+def CallDRT (fn : String) : Prop := ∀ vs w, callExt fn vs = .ok w → w.DRT
+
+/-- expressions whose partial interpretation never leaves a record literal as residual: not a record constructor,
+    and not an `if` with such a branch -/
+def NR : Expr → Prop
+  | .record _ => False
+  | .ite _ t e => NR t ∧ NR e
+  | _ => True
+
+/-- the fragment of expressions covered by `pinterp_sound_partial` (no unknowns in the policy text; extension calls
+    for functions satisfying `CallDRT`; `.`/`has` not directly on a record constructor — `NR` —, whose residual
+    `get_attr` would project into and re-interpret) -/
 inductive Frag : Expr → Prop
   | lit (p : Prim) : Frag (.lit p)
   | var (v : Var) : Frag (.var v)
@@ -102,11 +116,14 @@ inductive Frag : Expr → Prop
   | and {a b : Expr} : Frag a → Frag b → Frag (.and a b)
   | or {a b : Expr} : Frag a → Frag b → Frag (.or a b)
   | unaryApp (op : UnaryOp) {a : Expr} : Frag a → Frag (.unaryApp op a)
-  | binaryApp (op : BinaryOp) {a b : Expr} : op.storeFree = true → Frag a → Frag b → Frag (.binaryApp op a b)
-  | getAttr {e : Expr} (a : String) : Frag e → Frag (.getAttr e a)
-  | hasAttr {e : Expr} (a : String) : Frag e → Frag (.hasAttr e a)
+  | binaryApp (op : BinaryOp) {a b : Expr} : Frag a → Frag b → Frag (.binaryApp op a b)
+  | getAttr {e : Expr} (a : String) : NR e → Frag e → Frag (.getAttr e a)
+  | hasAttr {e : Expr} (a : String) : NR e → Frag e → Frag (.hasAttr e a)
   | like {e : Expr} (p : Pattern) : Frag e → Frag (.like e p)
   | is {e : Expr} (ty : EntityType) : Frag e → Frag (.is e ty)
+  | set {xs : List Expr} : (∀ x, x ∈ xs → Frag x) → Frag (.set xs)
+  | record {kvs : List (String × Expr)} : (∀ kv, kv ∈ kvs → Frag kv.2) → Frag (.record kvs)
+  | call (fn : String) {args : List Expr} : fn ≠ "unknown" → CallDRT fn → (∀ x, x ∈ args → Frag x) → Frag (.call fn args)
 
 /-! ### the concrete store seen through `PEntities.ofConcrete` -/
 
